@@ -461,6 +461,48 @@ def c11Update (st : BkState) (pre post : Server) (ws : List String) (io : ImplOu
           s!"c{n} has {cur'.length} unacknowledged QoS>0 PUBLISH packets in transit (ids {cur'}), the client declared Receive Maximum {rm}"])
       else (st, vs)) (st, [])
 
+/-- C09 (after PUBREC the broker resends PUBREL, not PUBLISH) on the real broker's streams -/
+def c09Update (st : BkState) (pre post : Server) (ws : List String) (io : ImplOut) : BkState × List String :=
+  -- 1. the client's PUBREC / PUBCOMP of this op (also when the client vanished right after sending it)
+  let st := match ws with
+    | op :: n :: typ :: kv =>
+      if op == "bk.send" || op == "bk.sendcut" then
+        match n.toNat?.bind (objOfConn pre) with
+        | some c =>
+          let id := kvNatD kv "id" 1
+          let inTransit := match n.toNat? with
+            | some nn => ((st.unacked.find? (·.1 == nn)).map (·.2) |>.getD []).contains id
+            | none => false
+          if typ == "PUBREC" && kvNatD kv "rc" 0 < 128 && (inTransit || (flGet c id).isSome) && (match flGet c id with | some m => m.type == 3 && m.qos == 2 | none => false) then
+            { st with pubrecd := st.pubrecd ++ [(c.id, id)] }
+          else if typ == "PUBCOMP" then { st with pubrecd := st.pubrecd.filter (· != (c.id, id)) }
+          else st
+        | none => st
+      else st
+    | _ => st
+  -- 2. a resumed session must not be resent the PUBLISH of an exchange that reached PUBREC
+  let vs := if ws.head? == some "bk.conn" || ws.head? == some "bk.release" then
+      io.conns.flatMap fun (n, pks) =>
+        match objOfConn post n with
+        | none => []
+        | some c => pks.flatMap fun p =>
+          if p.startsWith "PUB:q2:d1" then
+            match (fieldOf p "id").bind (·.toNat?) with
+            | some id => if st.pubrecd.contains (c.id, id) then
+                [fail "C09" "-" s!"c{n}: the broker resent PUBLISH (DUP) for packet id {id} although it had already received PUBREC for it; it must resend PUBREL"] else []
+            | none => []
+          else []
+    else []
+  -- a session that ended (clean start, expiry) forgets its exchanges
+  let st := match ws with
+    | "bk.conn" :: _ :: _ :: clean :: cid :: _ =>
+      if clean == "1" then match parseHex cid with
+        | some id => { st with pubrecd := st.pubrecd.filter (·.1 != id) }
+        | none => st
+      else st
+    | _ => st
+  (st, vs)
+
 def renderVerdicts (vs : List String) : String :=
   if vs.isEmpty then "ok" else "; ".intercalate vs
 
@@ -476,8 +518,9 @@ def brokerOpV (st : BkState) (impl : String) (ws : List String) : Option (BkStat
   match brokerOp st impl ws with
   | some (st', m, _, g) =>
     let (st'', c12) := c12Update st' st.srv st'.srv ws (parseImplOut core) flags
-    let (st3, c11) := c11Update st'' st.srv st'.srv ws (parseImplOut core)
-    some (st3, m, renderVerdicts (brokerVerdicts st.srv ws core flags ++ c12 ++ c11), g)
+    let (st2b, c09) := c09Update st'' st.srv st'.srv ws (parseImplOut core)
+    let (st3, c11) := c11Update st2b st.srv st'.srv ws (parseImplOut core)
+    some (st3, m, renderVerdicts (brokerVerdicts st.srv ws core flags ++ c12 ++ c09 ++ c11), g)
   | none => none
 
 end Mochi.Driver
